@@ -112,8 +112,26 @@ func rewrite(t *ir.Term, st *ir.State) *ir.Term {
 		if k, _, ok := freshArrayLen(x); ok {
 			return ir.Const(fmt.Sprint(k))
 		}
+		// len(x[lo:]) = len(x) - lo for a fresh slice literal x and constant lo within it
+		if x.Op == "slice" && len(x.Args) == 4 && x.Args[2].Aux == "_" && x.Args[3].Aux == "_" {
+			if lo, isK := x.Args[1].IntConst(); isK {
+				if k, _, ok := freshArrayLen(x.Args[0]); ok && lo >= 0 && lo <= k {
+					return ir.Const(fmt.Sprint(k - lo))
+				}
+			}
+		}
 	case "load":
 		a := n.Args[0]
+		// []T{x0, ..}[i]: element i of a fresh slice literal is what was stored into the backing array
+		if a.Op == "iaddr" {
+			if i, isK := a.Args[1].IntConst(); isK {
+				if k, arr, ok := freshArrayLen(a.Args[0]); ok && i >= 0 && i < k && st != nil {
+					if v := st.MemAt(&ir.Term{Op: "iaddr", Args: []*ir.Term{arr, a.Args[1]}}); v != nil {
+						return rewrite(v, st)
+					}
+				}
+			}
+		}
 		if a.Op == "iaddr" && a.Args[0].Op == "append" {
 			ap := a.Args[0]
 			if i, isK := a.Args[1].IntConst(); isK {
@@ -204,6 +222,24 @@ func evalOp(c *core.Ctx, fn *ssa.Function, params []*ir.Term, mem *ir.State, key
 	return &opResult{fn: fn, res: ps[0].Results[0], end: ps[0].End, p: ps[0]}
 }
 
+// evalOpCases: like evalOp, for an operation whose body splits into cases (an early return for the empty
+// sequence): every returning path with its own result and end state.
+func evalOpCases(c *core.Ctx, fn *ssa.Function, params []*ir.Term, mem *ir.State, key string) []*opResult {
+	st := ir.NewRootState(fn, params, nil, mem)
+	an := c.AnalyzeFrom(fn, st, key)
+	if len(an.Problems) > 0 || len(an.Headers) > 0 {
+		return nil
+	}
+	var out []*opResult
+	for _, p := range an.AllPaths() {
+		if p.Exit != ir.ExitReturn || len(p.Results) != 1 {
+			return nil
+		}
+		out = append(out, &opResult{fn: fn, res: p.Results[0], end: p.End, p: p})
+	}
+	return out
+}
+
 func runC19(c *core.Ctx) {
 	c.Doc("law", 10, "ADT laws by composition and rewriting")
 	c.Doc("persistence", 10, "no operation stores into its argument's memory or appends onto a caller's slice")
@@ -265,10 +301,10 @@ func runC19(c *core.Ctx) {
 			c.Check(ok, "persistence", name, fn.Pos(), "no store / no append onto the argument", "%s", why)
 		}
 
-		// symbolic results
-		cons := evalOp(c, ops["Cons"], nil, nil, "sym")
-		if cons == nil {
-			c.Undecided("law", sh+".Cons", ops["Cons"].Pos(), "Cons is not a single straight-line path")
+		// symbolic results, one case per returning path of Cons (a guard for the empty sequence makes two)
+		conses := evalOpCases(c, ops["Cons"], nil, nil, "sym")
+		if len(conses) == 0 {
+			c.Undecided("law", sh+".Cons", ops["Cons"].Pos(), "Cons is not a finite set of straight-line cases")
 			continue
 		}
 		xT := &ir.Term{Op: "param", Aux: ops["Cons"].Params[1].Name()}
@@ -280,39 +316,71 @@ func runC19(c *core.Ctx) {
 			}
 			return rewrite(r.res, r.end)
 		}
-		// Head(Cons(x,s)) = x
-		if r := on("Head", cons.res, cons.end, "head-of-cons"); r != nil {
-			c.Check(ir.Same(r, xT), "law", sh+": Head(Cons(x,s)) = x", ops["Head"].Pos(), short(r), "Head(Cons(x,s)) normalises to %s, expected x", short(r))
-		} else {
-			c.Undecided("law", sh+": Head(Cons(x,s)) = x", ops["Head"].Pos(), "Head could not be evaluated")
-		}
-		// Tail(Cons(x,s)) = s
-		if r := on("Tail", cons.res, cons.end, "tail-of-cons"); r != nil {
-			ok := ir.Same(r, sT)
-			if !ok && r.Op == "lit" {
-				// componentwise: every field equals the same field of s
-				ok = len(r.Args) > 0
-				for _, kv := range r.Args {
-					want := &ir.Term{Op: "field", Aux: kv.Aux, Args: []*ir.Term{sT}}
-					if !ir.Same(kv.Args[0], want) && !linEqual(kv.Args[0], want) {
-						ok = false
+		lenS := on("Length", nil, nil, "sym")
+		sEmptyAtom := &ir.Term{Op: "bin", Aux: "==", Args: sorted2(ir.Const("0"), &ir.Term{Op: "len", Args: []*ir.Term{sT}})}
+		okH, okT, okL := true, true, true
+		whyH, whyT, whyL := "", "", ""
+		shown := ""
+		for ci, cons := range conses {
+			// on a case that established "s is empty" the laws are about the one-element sequence
+			sEmpty := polarity(cons.p, sEmptyAtom) > 0
+			tag := fmt.Sprintf("-case%d", ci)
+			// Head(Cons(x,s)) = x
+			if r := on("Head", cons.res, cons.end, "head-of-cons"+tag); r != nil {
+				shown = short(r)
+				if !ir.Same(r, xT) {
+					okH, whyH = false, fmt.Sprintf("Head(Cons(x,s)) normalises to %s, expected x", short(r))
+				}
+			} else {
+				okH, whyH = false, "Head could not be evaluated"
+			}
+			// Tail(Cons(x,s)) = s
+			if r := on("Tail", cons.res, cons.end, "tail-of-cons"+tag); r != nil {
+				ok := ir.Same(r, sT)
+				if !ok && r.Op == "lit" {
+					// componentwise: every field equals the same field of s
+					ok = len(r.Args) > 0
+					for _, kv := range r.Args {
+						want := &ir.Term{Op: "field", Aux: kv.Aux, Args: []*ir.Term{sT}}
+						if !ir.Same(kv.Args[0], want) && !linEqual(kv.Args[0], want) {
+							ok = false
+						}
 					}
 				}
+				if !ok && sEmpty {
+					// both sides are the empty sequence: Length(Tail(Cons(x,s))) = 0 = Length(s)
+					if lr := evalOp(c, ops["Length"], []*ir.Term{nil, r}, cons.end, "len-of-tail-of-cons"+tag); lr != nil {
+						if z, isZ := rewrite(lr.res, lr.end).IntConst(); isZ && z == 0 {
+							ok = true
+						}
+					}
+				}
+				if !ok {
+					okT, whyT = false, fmt.Sprintf("Tail(Cons(x,s)) normalises to %s, expected s itself", short(r))
+				}
+			} else {
+				okT, whyT = false, "Tail could not be evaluated"
 			}
-			c.Check(ok, "law", sh+": Tail(Cons(x,s)) = s", ops["Tail"].Pos(), short(r), "Tail(Cons(x,s)) normalises to %s, expected s itself", short(r))
-		} else {
-			c.Undecided("law", sh+": Tail(Cons(x,s)) = s", ops["Tail"].Pos(), "Tail could not be evaluated")
+			// Length(Cons(x,s)) = Length(s) + 1
+			if r := on("Length", cons.res, cons.end, "len-of-cons"+tag); r != nil && lenS != nil {
+				lenOfS := substParam(lenS, ops["Length"].Params[1].Name(), sT)
+				want := &ir.Term{Op: "bin", Aux: "+", Args: []*ir.Term{lenOfS, ir.Const("1")}}
+				good := linEqual(r, want)
+				if !good && sEmpty && ir.Same(lenOfS, &ir.Term{Op: "len", Args: []*ir.Term{sT}}) {
+					if k, isK := r.IntConst(); isK && k == 1 {
+						good = true
+					}
+				}
+				if !good {
+					okL, whyL = false, fmt.Sprintf("Length(Cons(x,s)) normalises to %s, expected %s", short(r), short(want))
+				}
+			} else {
+				okL, whyL = false, "Length could not be evaluated"
+			}
 		}
-		// Length(Cons(x,s)) = Length(s) + 1
-		lenS := on("Length", nil, nil, "sym")
-		if r := on("Length", cons.res, cons.end, "len-of-cons"); r != nil && lenS != nil {
-			// rename: Length's own parameter is called like Cons's sequence parameter? use structural replace
-			lenOfS := substParam(lenS, ops["Length"].Params[1].Name(), sT)
-			want := &ir.Term{Op: "bin", Aux: "+", Args: []*ir.Term{lenOfS, ir.Const("1")}}
-			c.Check(linEqual(r, want), "law", sh+": Length(Cons(x,s)) = Length(s)+1", ops["Length"].Pos(), short(r), "Length(Cons(x,s)) normalises to %s, expected %s", short(r), short(want))
-		} else {
-			c.Undecided("law", sh+": Length(Cons(x,s)) = Length(s)+1", ops["Length"].Pos(), "Length could not be evaluated")
-		}
+		c.Check(okH, "law", sh+": Head(Cons(x,s)) = x", ops["Head"].Pos(), shown, "%s", whyH)
+		c.Check(okT, "law", sh+": Tail(Cons(x,s)) = s", ops["Tail"].Pos(), fmt.Sprintf("%d case(s)", len(conses)), "%s", whyT)
+		c.Check(okL, "law", sh+": Length(Cons(x,s)) = Length(s)+1", ops["Length"].Pos(), fmt.Sprintf("%d case(s)", len(conses)), "%s", whyL)
 		// IsEmpty(s) = (Length(s) == 0): IsEmpty is the term L == 0, or a decision tree on it returning constants
 		if lenS != nil {
 			l2 := substParam(lenS, ops["Length"].Params[1].Name(), &ir.Term{Op: "param", Aux: ops["IsEmpty"].Params[1].Name()})
@@ -470,8 +538,7 @@ func listNewOrder(c *core.Ctx) {
 	iSym := an.Start[h].Reg(idx)
 	ok := true
 	why := ""
-	var d int64
-	dSet := false
+	var jTerm *ir.Term // the index of the element prepended in an iteration, as a term over the loop counter
 	var accNow func(p *ir.Path) *ir.Term // the accumulated list as seen at the start of a path from h
 	nIter := 0
 	for _, p := range an.Segs[h] {
@@ -497,11 +564,11 @@ func listNewOrder(c *core.Ctx) {
 			for i := 0; i < 2; i++ {
 				hd, tl := fs[i].Args[0], fs[1-i].Args[0]
 				if hd.Op == "load" && hd.Args[0].Op == "iaddr" && ir.Same(hd.Args[0].Args[0], xs) {
-					if dd, isK := plusConst(hd.Args[0].Args[1], iSym); isK {
-						if dSet && dd != d {
+					if j := hd.Args[0].Args[1]; mentions(j, iSym) {
+						if jTerm != nil && !linEqual(jTerm, j) {
 							ok, why = false, "different iterations index the arguments differently"
 						}
-						d, dSet = dd, true
+						jTerm = j
 						cell, vTail = addr, tl
 						nCells++
 					}
@@ -529,25 +596,28 @@ func listNewOrder(c *core.Ctx) {
 		if next == nil || !ir.Same(next, cell) {
 			ok, why = false, "the new cell must point to the list built so far and become the new head of it; found tail = "+short(vTail)+", list' = "+short(next)
 		}
-		if dd, isK := plusConst(p.PhiOut[idx], iSym); !isK || dd != -1 {
+		// the element index J (a term over the loop counter, whichever way the counter runs) goes down by exactly
+		// one per iteration
+		jNext := substTerm(jTerm, iSym, p.PhiOut[idx])
+		if !linEqual(jNext, &ir.Term{Op: "bin", Aux: "-", Args: []*ir.Term{jTerm, ir.Const("1")}}) {
 			ok, why = false, "the index must decrease by exactly one per iteration"
 		}
-		// continue condition: J = I + d >= 0
+		// continue condition: exactly J >= 0. A test X < Y taken on its true edge means Y - X - 1 >= 0, on its false
+		// edge X - Y >= 0; one of the loop's tests must be the same linear quantity as J
 		good := false
 		for _, st := range p.Events(ir.KBranch) {
 			at := st.Atom
-			if at.Op != "bin" || at.Aux != "<" {
+			if at.Op != "bin" || at.Aux != "<" || len(at.Args) != 2 || !mentions(at, iSym) {
 				continue
 			}
-			if ir.Same(at.Args[0], iSym) {
-				if cst, isK := at.Args[1].IntConst(); isK && !st.Pol && cst+d == 0 {
-					good = true // I >= c  and  c + d == 0
-				}
+			var q *ir.Term
+			if st.Pol {
+				q = &ir.Term{Op: "bin", Aux: "-", Args: []*ir.Term{{Op: "bin", Aux: "-", Args: []*ir.Term{at.Args[1], at.Args[0]}}, ir.Const("1")}}
+			} else {
+				q = &ir.Term{Op: "bin", Aux: "-", Args: []*ir.Term{at.Args[0], at.Args[1]}}
 			}
-			if ir.Same(at.Args[1], iSym) {
-				if cst, isK := at.Args[0].IntConst(); isK && st.Pol && cst+1+d == 0 {
-					good = true // I > c
-				}
+			if linEqual(q, jTerm) {
+				good = true
 			}
 		}
 		if !good {
@@ -560,7 +630,10 @@ func listNewOrder(c *core.Ctx) {
 	// start: index such that the first element visited is xs[len-1]; empty accumulated list
 	for _, p := range an.Segs[nil] {
 		if p.To == h {
-			first := &ir.Term{Op: "bin", Aux: "+", Args: []*ir.Term{p.PhiOut[idx], ir.Const(fmt.Sprint(d))}}
+			if jTerm == nil {
+				continue
+			}
+			first := substTerm(jTerm, iSym, p.PhiOut[idx])
 			want := &ir.Term{Op: "bin", Aux: "-", Args: []*ir.Term{lenXs, ir.Const("1")}}
 			if !linEqual(first, want) {
 				ok, why = false, "the first element prepended is xs["+short(first)+"], expected xs[len(xs)-1]"
